@@ -1545,9 +1545,15 @@ impl Translator {
         }
     }
 
-    fn wrapper_footer(&self, st: &mut TranslatorState, nargs: usize, for_function_body: bool) {
+    fn wrapper_footer(
+        &self,
+        st: &mut TranslatorState,
+        nargs: usize,
+        returns_void: bool,
+        for_function_body: bool,
+    ) {
         if for_function_body {
-            if nargs == 0 {
+            if returns_void {
                 self.emit(st, Instr::ReturnVoid);
             } else {
                 self.emit(st, Instr::Return(nargs as u32));
@@ -1847,7 +1853,11 @@ impl Translator {
                 self.emit(st, Instr::Panic);
             }
         }
-        self.wrapper_footer(st, nargs, for_function_body);
+        let returns_void = matches!(
+            self.get_ty(mono, func_node),
+            Some(SolvedType::Function(_, ret_ty)) if *ret_ty == SolvedType::Void
+        );
+        self.wrapper_footer(st, nargs, returns_void, for_function_body);
     }
 
     fn emit_foreign(
@@ -1881,7 +1891,8 @@ impl Translator {
         let func_id = offset + self.statics.dylib_to_funcs[&lib_id].get_id(symbol) as usize;
         self.emit(st, Instr::CallForeign(func_id as u32));
 
-        self.wrapper_footer(st, nargs, for_function_body);
+        let returns_void = matches!(&*func_decl.ret_type.kind, crate::ast::TypeKind::Void);
+        self.wrapper_footer(st, nargs, returns_void, for_function_body);
     }
 
     fn emit_host(
@@ -1897,7 +1908,8 @@ impl Translator {
         let idx = self.statics.host_funcs.get_id(func_decl) as u16;
         self.emit(st, Instr::HostFunc(idx));
 
-        self.wrapper_footer(st, nargs, for_function_body);
+        let returns_void = matches!(&*func_decl.ret_type.kind, crate::ast::TypeKind::Void);
+        self.wrapper_footer(st, nargs, returns_void, for_function_body);
     }
 
     // emit items for checking if a pattern matches the TOS, replacing it with a boolean
